@@ -16,6 +16,13 @@ for f in sorted(os.listdir(os.path.join(VERIF, "findings"))):
     prop = r["property"]
     if prop not in props.PROPS:
         print(f"{f}: property {prop} has no registered monitors yet"); continue
+    if "case" not in r:
+        # a finding of a check with its own replayer (C17, C19, ...): go through `./check <prop> --replay`
+        pr = subprocess.run([os.path.join(VERIF, "check"), prop, "--replay", os.path.join("findings", f)], cwd=VERIF,
+                            env=dict(os.environ, XSM_REPO_SRC=src), capture_output=True, text=True, timeout=600)
+        tail = [l for l in (pr.stdout + pr.stderr).strip().splitlines() if l.strip()][-1:] or [""]
+        print(f"{f}: custom replay exit={pr.returncode} {tail[0][:160]}")
+        continue
     res = []
     for fl in ([r["flavor"]] if r["flavor"] in ("sync", "async") else ["sync", "async"]):
         st, obs = core._impl_worker((fl, r["case"], 8))
